@@ -18,7 +18,7 @@ import tempfile
 
 import progs
 
-TERMINATOR = {"n": {"q": [0, 1]}, "b": False, "parts": [], "m": {"n": {"q": [0, 1]}, "b": False}}
+TERMINATOR = {"n": {"q": [0, 1]}, "b": False, "parts": [], "m": {"n": {"q": [0, 1]}, "b": False}, "x": {"q": [0, 1]}}
 TERMINATOR_P = {"n": {"q": [0, 1]}, "b": False}
 QUERY_BUDGET = 40
 
@@ -43,7 +43,13 @@ def gen_P(rng):
 def gen_R(rng):
     # r.n and r.m.n are used as loop limits: keep them integral so that parallel loops are well-defined
     return {"n": gen_int03(rng), "b": rng.random() < 0.5, "parts": [gen_P(rng) for _ in range(rng.randint(0, 3))],
-            "m": {"n": gen_int03(rng), "b": rng.random() < 0.5}}
+            "m": {"n": gen_int03(rng), "b": rng.random() < 0.5}, "x": gen_x(rng)}
+
+
+def gen_x(rng):
+    """free numeric attribute: the literals of the expression generator (so that == / != hit), floats, negatives, large"""
+    return rng.choice([{"q": [0, 1]}, {"q": [1, 1]}, {"q": [9, 4]}, {"q": [-1, 2]}, {"q": [-9, 4]}, {"q": [1000, 1]},
+                       {"q": [2, 1, True]}, {"q": [3, 2]}, {"q": [255, 1]}, {"q": [-1, 1]}])
 
 
 class Answers:
@@ -81,6 +87,7 @@ def gen_case(rng, depth=3, hist=False, ids=None, max_ops=40, **genkw):
         if not any(imm_other):
             imm_other[0] = True
     case = {
+        "witness": bool(hist) and rng.random() < 0.5,
         "imm_other": imm_other,
         "prog": prog,
         "text": text,
@@ -105,7 +112,7 @@ DEFAULT_PRELUDE = [
 ]
 
 
-def gen_prelude(rng, hist, imm_any=False):
+def gen_prelude(rng, hist, imm_any=False, shared=False):
     """registration / attach history before start()"""
     if not hist:
         return list(DEFAULT_PRELUDE) + [{"op": "attach", "o": 0}]
@@ -114,6 +121,8 @@ def gen_prelude(rng, hist, imm_any=False):
     regs = []
     for k in ("ts", "ss", "sf", "tf"):
         fns = [0] + [j for j in (1, 2) if rng.random() < 0.5]
+        if shared and rng.random() < 0.6:
+            fns.append(9)  # the function that is also registered at the other scheduler of this process
         rng.shuffle(fns)
         for j in fns:
             regs.append({"op": "reg", "kind": k, "fn": j})
@@ -124,6 +133,7 @@ def gen_prelude(rng, hist, imm_any=False):
         # finding K17 (listeners registered after a re-entrantly completing one see the API object as the nested
         # call left it): with re-entrant completions the EE's service-started listener is registered last
         ee = [r for r in regs if r["kind"] == "ss" and r["fn"] == 0]
+        ee = ee[:1] if not ee else ee
         regs = [r for r in regs if not (r["kind"] == "ss" and r["fn"] == 0)] + ee
     ops += regs
     for o in range(rng.randint(0, 3)):
@@ -171,10 +181,23 @@ def run_impl(case, scratch=None):
     as_file = None
     if case.get("as_file"):
         as_file = os.path.join(os.getcwd(), "case_%d.pfdl" % os.getpid())
+    witness = None
+    if case.get("witness"):
+        # a second scheduler of the same process with its own listeners and the shared function registered, never
+        # started: nothing the scheduler under test does may reach it, and it must not influence registrations
+        witness = impl.Run(case["text"], ids=case["ids"])
+        if witness.s is not None:
+            for k in ("ts", "ss", "sf", "tf"):
+                witness.s.__getattribute__({"ts": "register_callback_task_started", "ss": "register_callback_service_started",
+                                            "sf": "register_callback_service_finished", "tf": "register_callback_task_finished"}[k])(impl.SHARED[k])
+                witness.register(k, 0)
+                witness.register(k, 1)
+            witness.attach(0)
     run = impl.Run(case["text"], ids=case["ids"], draw=case.get("draw", False), sched_uuid=case.get("sched_uuid", ""),
                    answers=answers, imm=(lambda k: imm[k % len(imm)]) if imm else None,
                    mutate=case.get("mutate", False), as_file=as_file,
                    imm_other=(lambda k: case["imm_other"][k % len(case["imm_other"])]) if case.get("imm_other") else None)
+    impl.SHARED_TARGET[0] = run
     res = {"valid": run.valid, "ctor_exc": run.ctor_exc, "ctor_out": run.ctor_out[:500]}
     if run.s is None or not run.valid:
         res["calls"] = []
@@ -201,7 +224,7 @@ def run_impl(case, scratch=None):
             return apply_op(run, op)
 
         imm_any = any(imm) or any(case.get("imm_other") or [])
-        for op in gen_prelude(rng, case.get("hist"), imm_any):
+        for op in gen_prelude(rng, case.get("hist"), imm_any, shared=bool(case.get("witness"))):
             do(op)
         hist = case.get("hist")
         if hist and rng.random() < 0.3:
@@ -243,6 +266,13 @@ def run_impl(case, scratch=None):
         case["answers"] = run.answers
         case["terminator"] = TERMINATOR
     res["calls"] = run.calls
+    if witness is not None and witness.s is not None:
+        got = [e[:6] for c in witness.calls[9:] for e in c["out"]] + [e[:6] for e in witness.prelude]
+        if got or len(witness.calls) != 9 or witness.s.running or len(witness.s.awaited_events) != 1:
+            rec = {"op": {"op": "witness"}, "out": [], "ret": None, "exc": None, "stdout": "",
+                   "witness_events": got[:5] or ["state of the other scheduler changed: running=%r awaited=%d" % (witness.s.running, len(witness.s.awaited_events))]}
+            rec.update(run.snapshot())
+            run.calls.append(rec)
     res["announced"] = list(run.announced)
     res["pending"] = list(run.pending)
     return res, run
@@ -315,7 +345,7 @@ def canon_impl_calls(res):
         out.append({"op": c["op"], "ret": c["ret"], "out": evs, "running": c.get("running"),
                     "awaited": aw_ids, "start_awaited": start_awaited, "other_awaited": other_awaited,
                     "exc": c.get("exc"), "final_marking": c.get("final_marking"), "marked": c.get("marked"),
-                    "not_running_in": c.get("not_running_in") or []})
+                    "not_running_in": c.get("not_running_in") or [], "witness_events": c.get("witness_events")})
     return out
 
 
